@@ -15,9 +15,9 @@ from fractions import Fraction
 from common import frac, rstr, rparse, close, VERIF, REPO
 
 ID = "C12"
-LEAN_TARGETS = ["Strengths.Props.C12", "Strengths.Props.C12Classes", "Strengths.Props.C12Traj"]
-PROP_FILES = ["Strengths/Props/C12.lean", "Strengths/Props/C12Classes.lean", "Strengths/Props/C12Traj.lean"]
-GEN_GROUPS = ["DictKeys", "Units"]
+LEAN_TARGETS = ["Strengths.Props.C12", "Strengths.Props.C12Classes", "Strengths.Props.C12Traj", "Strengths.Props.C12Eq"]
+PROP_FILES = ["Strengths/Props/C12.lean", "Strengths/Props/C12Classes.lean", "Strengths/Props/C12Traj.lean", "Strengths/Props/C12Eq.lean"]
+GEN_GROUPS = ["DictKeys", "Units", "Network"]
 RULE = ("objects of every kind (network, grid, graph, system, script, trajectory) are generated from a JSON-able "
         "spec (1-4 species, 0-4 reactions with orders 0-4 per side, empty sides, repeated species, labelled/unlabelled, "
         "scalar or per-environment D/density/chstt/k with and without 'default'; grids 1-3^3 with all boundary "
@@ -44,7 +44,12 @@ RULE = ("objects of every kind (network, grid, graph, system, script, trajectory
         "read -> edit every units system / state array of the result in place -> read the same dictionary again (must equal the first "
         "reading), a later unrelated dictionary with omitted units (must be in default units), no mutable object shared between two "
         "results or with any default argument of the package; [stoichiometry incl. zero coefficients survives] zero-coefficient "
-        "cases in dict-of-sides and text form + random zeros in generated networks; a case = (kind, mode, spec) with mode in direct | json | file-abs | "
+        "cases in dict-of-sides and text form + random zeros in generated networks; [stoichiometry survives for labels of every lexical form] "
+        "species / reaction / environment labels of 65 % of the generated networks are drawn from the whole label language (non-empty, no blank, "
+        "no '+', no '->'): starting with / ending in / made only of digits, the same label behind a digit prefix or in the other case or "
+        "extended, signs, brackets, non-ASCII letters; label-forms: fixed + random label triples in reactions given as side dictionaries and as "
+        "text, every label with coefficient 1 and > 1, judged by the network view AND the (ssto, psto) vectors, the written equation also "
+        "read by the model of _fromstring (op parse_equation; theorems written_equation_reread / written_equation_vectors); a case = (kind, mode, spec) with mode in direct | json | file-abs | "
         "file-rel | multifile | reserialise | alias | default; non-trivial when at least two different unit systems occur "
         "in the object or the mode involves files/aliases/defaults; distinct by (kind, mode, spec)")
 ASSUMPTIONS = [
@@ -55,7 +60,8 @@ ASSUMPTIONS = [
 TRUSTED = [
     "Python-side SI oracle (prefix table of harness/props/c06.py) and the documented-defaults table below (hand-written from documentation/json_and_dict_doc.rst)",
     "the unit text of a quantity is re-read by parse_units (modelled in Model/Units.lean); the float token and the "
-    "reaction equation text are tokens carrying their value in the model (print/parse of those is C18/C19)",
+    "reaction equation text are tokens carrying their value in the dictionary model (print/parse of those is C18/C19; the equation "
+    "print/parse theorem is restated for C12 in Props/C12Eq.lean and the written equations are compared with the parser model)",
 ]
 
 from props.c06 import si_factor, SPACE, TIME, QTY  # noqa: E402  (independent SI table)
@@ -145,13 +151,73 @@ def gen_envval(rng, dim, own, envs, mk):
     return {"env": [[k, mk()] for k in keys]}
 
 
+# ---- lexical forms of labels.  A label (species, reaction, environment) is any non-empty text without a blank, without "+"
+# and without "->" (value_processing.assert_string_is_a_valid_label + what an equation text can carry: C19 print_parse).
+# The equation text of a reaction is the only place where a species label is written next to a number, so every form a
+# label may take is generated: leading / trailing / only digits, a label that is another label behind a digit prefix, labels
+# differing by case, prefixes of each other, signs and brackets, non-ASCII letters.
+LABEL_CORES = ["A", "B", "C", "X", "O", "PG", "Na", "a", "x", "AB", "H", "e", "α", "µ", "Ca", "k"]
+LABEL_DIGITS = ["1", "2", "3", "0", "10", "13", "007", "2", "1"]
+LABEL_TAILS = ["", "", "", "", "1", "2", "12", "_b", "-", "--", "*", "'", ".x", "(P)H", "2-", "]", ":1", "/2", "-2", ">", "#", "e3"]
+
+
+def legal_label(l):
+    return bool(l) and not any(c.isspace() for c in l) and "+" not in l and "->" not in l and "," not in l
+
+
+def rand_label(rng):
+    """one label of a random lexical form"""
+    r = rng.random()
+    if r < 0.08:
+        l = rng.choice(LABEL_DIGITS) + rng.choice(["", "", "0", "5"])          # digits only
+    else:
+        l = (rng.choice(LABEL_DIGITS) if r < 0.45 else "") + rng.choice(["", "", "", "[", "(", "_", "-", "."]) \
+            + rng.choice(LABEL_CORES) + rng.choice(LABEL_TAILS)
+    return l if legal_label(l) else "A"
+
+
+def rand_labels(rng, n, plain):
+    """n distinct labels; related pairs are made on purpose: the same label behind a digit prefix, the other case, an extension"""
+    if rng.random() < 0.35:
+        return list(plain[:n])
+    out = []
+    guard = 0
+    while len(out) < n and guard < 50:
+        guard += 1
+        r = rng.random()
+        if out and r < 0.45:
+            b = rng.choice(out)
+            k = rng.random()
+            if k < 0.45:
+                l = rng.choice(LABEL_DIGITS) + b                     # "1O2" next to "O2", "2A" next to "A"
+            elif k < 0.6:
+                l = b.lstrip("0123456789")                           # the remainder behind the digits
+            elif k < 0.75:
+                l = b.swapcase()
+            elif k < 0.9:
+                l = b + rng.choice(["2", "B", "_", "-", "'"])        # prefix of each other
+            else:
+                l = b[::-1]
+        else:
+            l = rand_label(rng)
+        if legal_label(l) and l not in out:
+            out.append(l)
+    for l in plain:
+        if len(out) < n and l not in out:
+            out.append(l)
+    rng.shuffle(out)
+    return out[:n]
+
+
 def gen_network(rng, parent=None):
     us = rand_sys(rng, parent)
     nenv = rng.choice([1, 1, 2, 3])
     envs = [["", "cyt", "mem", "nuc"][i] if rng.random() < 0.3 else "e%d" % i for i in range(nenv)]
+    if rng.random() < 0.3:      # environment labels of any lexical form ("default" is the reserved fallback key of the per-environment dictionaries)
+        envs = [l for l in rand_labels(rng, nenv, envs) if l != "default"] or envs
     envs = list(dict.fromkeys(envs))
     nsp = rng.randint(1, 4)
-    labels = ["A", "B", "C", "X1"][:nsp]
+    labels = rand_labels(rng, nsp, ["A", "B", "C", "X1"])
     species = []
     for l in labels:
         sus = rand_sys(rng, us)
@@ -160,6 +226,7 @@ def gen_network(rng, parent=None):
                         "density": gen_envval(rng, DIM["density"], sus, envs, lambda: gen_q(rng, DIM["density"], sus)),
                         "chstt": gen_envval(rng, None, sus, envs, lambda: rng.random() < 0.4)})
     reactions = []
+    rlabels = rand_labels(rng, 4, ["r0", "r1", "r2", "r3"])
     for i in range(rng.randint(0, 4)):
         rus = rand_sys(rng, us)
 
@@ -175,7 +242,7 @@ def gen_network(rng, parent=None):
             return out
         sub, prod = side(), side()
         reactions.append({"sub": sub, "prod": prod, "us": list(rus),
-                          "label": ("r%d" % i) if rng.random() < 0.5 else None,
+                          "label": rlabels[i] if rng.random() < 0.5 else None,
                           "kf": gen_envval(rng, None, rus, envs, lambda: gen_q(rng, None, rus)),
                           "kr": gen_envval(rng, None, rus, envs, lambda: gen_q(rng, None, rus))})
     return {"us": list(us), "envs": envs, "species": species, "reactions": reactions}
@@ -1676,16 +1743,79 @@ def zero_coefficient_stream(ctx):
             ctx.violation(detail["key"], detail["what"], case, impl=detail.get("impl"), expected=detail.get("expected"))
 
 
-def check_zero_case(sides, text):
+# =============================================================================================
+# stream "label forms": the stoichiometry of reactions whose species labels take every lexical form a label may have
+# (the equation text written by the writers is the only place where a label stands next to a number)
+# =============================================================================================
+LABEL_FAMILIES = [["A", "B", "D"], ["1A", "A", "2B"], ["2X", "3X", "X"], ["10", "2", "7"], ["1O2", "O2", "O"], ["13C", "12C", "C"],
+                  ["a", "A", "Aa"], ["A", "AB", "ABC"], ["e-", "H3O", "Ca2"], ["A*", "A'", "A_"], ["[A]", "(A)", "A.B"],
+                  ["α", "µX", "2α"], ["0", "00", "0A"], ["A1", "1A1", "11"], ["A-", "-A", "A--B"], ["1e3", "e3", "1.5A"],
+                  ["-1", "1-", "A>"], ["0x1F", "x1F", "1F"]]
+
+
+def label_forms_stream(ctx):
+    m = S()
+    rng = ctx.rng
+    fams = [list(f) for f in LABEL_FAMILIES]
+    for _ in range(ctx.n(25, 600)):
+        f = rand_labels(rng, 3, ["A", "B", "D"])
+        if len(f) == 3:
+            fams.append(f)
+    ops, meta = [], []
+    for fam in fams:
+        a, b, c = fam
+        co = [1, rng.choice([1, 2, 3, 12])]
+        variants = [([{a: 1, b: co[1]}, {c: 1}], None), ([{c: 1}, {b: 1, a: co[1]}], None), ([{b: 1, c: 1, a: 1}, {}], None),
+                    (None, "%s + %d %s -> %s" % (a, co[1], b, c)), (None, "%s->%s+%s" % (c, b, a)), (None, " -> %s + %s + %s" % (b, c, b))]
+        for sides, text in variants:
+            case = {"kind": "zero-coefficient", "sides": sides, "text": text, "species": fam}
+            # the file route on the fixed families and on one variant of the random ones (the three routes share the reader)
+            holds, detail = check_zero_case(sides, text, fam, "label-forms:", modes=("direct", "json", "file-abs", "reserialise")
+                                            if (fam in LABEL_FAMILIES and text is None) or (sides is not None and len(sides[1]) == 0) else ("json", "reserialise"))
+            ctx.case(("label-forms", json.dumps(fam), json.dumps(sides), text), nontrivial=True)
+            ctx.count("stream_label_forms")
+            ctx.count("label_form_" + ("digit-leading" if any(l[0].isdigit() and not l.isdigit() for l in fam) else
+                                       "digits-only" if any(l.isdigit() for l in fam) else "other"))
+            if not holds:
+                ctx.violation(detail["key"], detail["what"], case, impl=detail.get("impl"), expected=detail.get("expected"))
+            # correspondence: the model of Reaction._fromstring (Model/Network.lean parseEquation) on the text the writer emits
+            try:
+                r = m["rn"].Reaction(sides if sides is not None else text)
+                ops.append({"op": "parse_equation", "eq": r.to_string()})
+                meta.append((case, r.to_string(), {k: int(v) for k, v in r.substrates.items() if v != 0},
+                             {k: int(v) for k, v in r.products.items() if v != 0}))
+            except Exception:  # noqa
+                pass
+    res = ctx.model.run(ops) if ops else []
+    for (case, eq, subs, prods), r in zip(meta, res):
+        try:
+            x = m["rn"].Reaction(eq)
+            got = {"subs": {k: int(v) for k, v in x.substrates.items() if v != 0}, "prods": {k: int(v) for k, v in x.products.items() if v != 0}}
+        except Exception as ex:  # noqa
+            got = {"error": type(ex).__name__}
+        ctx.count("corr_written_equation")
+        if r is None:
+            continue
+        if "error" in r or "ok" not in r:
+            mod = {"error": r.get("error")}
+        else:
+            mod = {"subs": {l: int(c) for l, c in r["ok"]["subs"] if int(c) != 0}, "prods": {l: int(c) for l, c in r["ok"]["prods"] if int(c) != 0}}
+        if mod != got:
+            ctx.disagree("parse_equation:written", dict(case, eq=eq), got, mod)
+        if mod != {"subs": subs, "prods": prods}:      # C19 print_parse says this cannot happen
+            ctx.disagree("parse_equation:print_parse", dict(case, eq=eq), {"subs": subs, "prods": prods}, mod)
+
+
+def check_zero_case(sides, text, species=None, prefix="zero-coefficient:", modes=("direct", "json", "file-abs", "reserialise")):
     m = S()
     try:
-        sp = [m["rn"].Species(l) for l in "ABD"]
+        sp = [m["rn"].Species(l) for l in (species or "ABD")]
         r = m["rn"].Reaction(sides if sides is not None else text, kf=2.0, kr=0.0, units_system=mk_sys(("mm", "s", "mol")))
         net = m["rn"].RDNetwork(sp, [r])
     except Exception as ex:  # noqa
         return True, {}      # not constructible: outside the quantifier
     ref = view_network(net)
-    for mode in ("direct", "json", "file-abs", "reserialise"):
+    for mode in modes:
         with Tmp() as tmp:
             try:
                 holds, detail = run_mode("network", mode, net, ref, {}, tmp, {}, None, {})
@@ -1693,9 +1823,22 @@ def check_zero_case(sides, text):
                 holds, detail = fail("zero:network:raises", "%s of a network with a zero coefficient raises %s: %s" % (mode, type(ex).__name__, str(ex)[:150]))
         if not holds:
             detail = dict(detail)
-            detail["key"] = "zero-coefficient:" + detail["key"]
+            detail["key"] = prefix + detail["key"]
             detail["what"] = "reaction %s: %s (written equation: %r)" % (sides if sides is not None else repr(text), detail["what"], r.to_string())
             return False, detail
+    if species is not None:
+        # the stoichiometry as the property names it: coefficient vectors over the network's species, original vs every reading
+        lab = list(species)
+        want = (r.ssto(lab), r.psto(lab))
+        d = m["rn"].rdnetwork_to_dict(net)
+        for route, rd in (("dict", lambda: m["rn"].rdnetwork_from_dict(copy.deepcopy(d))),
+                          ("json", lambda: m["rn"].rdnetwork_from_dict(json.loads(json.dumps(jsonable_dict(d)))))):
+            y, err = guarded(rd)
+            got = None if err is not None else (y.reactions[0].ssto(lab), y.reactions[0].psto(lab))
+            if got is None or [list(map(int, v)) for v in got] != [list(map(int, v)) for v in want]:
+                return fail(prefix + "stoichiometry-vectors", "species %r, reaction %s: read back through %s the (ssto, psto) vectors are %s (written equation: %r)"
+                            % (lab, sides if sides is not None else repr(text), route, err if got is None else [list(map(int, v)) for v in got], r.to_string()),
+                            impl=err if got is None else [list(map(int, v)) for v in got], expected=[list(map(int, v)) for v in want])
     return True, {}
 
 
@@ -1742,6 +1885,7 @@ def run(ctx):
     documented_alias_checks(ctx, aliases)
     special_cases(ctx)
     zero_coefficient_stream(ctx)
+    label_forms_stream(ctx)
     file_name_stream(ctx)
     from props import c12_model
     c12_model.correspond(ctx, aliases)
@@ -1993,7 +2137,7 @@ def replay(ctx, rec):
         out.update(detail)
         return holds, out
     if case.get("kind") == "zero-coefficient":
-        holds, detail = check_zero_case(case["sides"], case["text"])
+        holds, detail = check_zero_case(case["sides"], case["text"], case.get("species"), "label-forms:" if case.get("species") else "zero-coefficient:")
         out.update(detail)
         return holds, out
     if "model_case" in case:
